@@ -379,6 +379,7 @@ pub fn write_spec(mix: WriteMix, nkeys: usize, nblobs: usize) -> impl Strategy<V
                 aged_hours,
                 decoy_opts,
                 chdir_mid: None,
+                churn: 0,
             };
             normalise_write(&mut s);
             s
